@@ -1,5 +1,6 @@
 """C20 - isoparse never misreads: accepted text is an ISO-8601 spelling of the result."""
 from .. import iso_rules as R
+from ..exc import check_escape
 
 CLAIM = ("static analysis of dateutil.parser.isoparser (digit/width validation before every int(), slice coverage of "
          "the offset for each admissible length, boolean decision table of the dash-consistency test, dominance of "
@@ -15,7 +16,9 @@ EXPLANATION = (
     "rejected, trailing input is rejected by isoparse (configured separator), parse_isodate and the time scanner; "
     "offset length in {3,5,6}, sign required, hours <= 23 and minutes <= 59 at tzoffset (interval analysis); week, "
     "weekday and ordinal ranges (C20.RANGE); 24:00 only with zero rest (C20.MIDNIGHT). C20.ASCII: non-ASCII text "
-    "becomes ValueError before the wrapped parser runs; the separator is validated before it is encoded.")
+    "becomes ValueError before the wrapped parser runs; the separator is validated before it is encoded. C20.EXC: the "
+    "exception-escape analysis (sa/exc.py) from each of the four entry points finds nothing but ValueError subclasses "
+    "escaping for text input (date arithmetic past the maximum date is converted to ValueError).")
 ASSUMPTIONS = ["bytes.isdigit() is true only for non-empty ASCII digit strings", "the denotation of accepted text is NOT decided (week 53 in 52-week years is accepted today)"]
 
 
@@ -26,3 +29,16 @@ def run(ctx):
     R.check_week(ctx, "C20.RANGE")
     R.check_midnight(ctx, "C20.MIDNIGHT")
     R.check_ascii(ctx, "C20.ASCII")
+    I = "dateutil.parser.isoparser."
+    seeds = {(I + "_takes_ascii.func", "str_in"): ["str", "bytes", "unknown"]}
+    suppress = {
+        (I + "isoparser._parse_isodate_uncommon", "date(year, 1, 1) + timedelta(days=ordinal_day - 1)"):
+            "ordinal_day <= 365 + isleap(year) (proved by C20.RANGE), so the sum stays inside the parsed year",
+        (I + "isoparser._calculate_weekdate", "jan_4 - timedelta(days=jan_4.isocalendar()[2] - 1)"):
+            "at most 6 days (proved by C20.RANGE) before 4 January; for year 1, 4 January is a Thursday, so the Monday is 1 January 0001",
+    }
+    n_entries = 0
+    for m in ("isoparse", "parse_isodate", "parse_isotime", "parse_tzstr"):
+        f = ctx.prog.method(R.CLS, m, "C20.EXC")
+        n_entries += 1
+        check_escape(ctx, "C20.EXC", f, ("ValueError",), seeds=seeds, suppress=suppress, ctor_overflow=False, min_functions=5, label=m + "()")
